@@ -13,6 +13,22 @@ use std::time::{Duration, Instant};
 
 pub const STACK: usize = 8 << 20;
 
+/// stack of the thread a case runs on: 8 MiB (a main thread) unless the parent asks for something else
+/// (the unoptimised-build worker uses 2 MiB, the default of spawned threads)
+fn case_stack() -> usize {
+    std::env::var("VERIF_WORKER_STACK").ok().and_then(|v| v.parse().ok()).unwrap_or(STACK)
+}
+
+/// which worker binary a case runs in
+#[derive(Clone, Copy, Debug, PartialEq, Eq)]
+pub enum Flavour {
+    /// this binary: optimised, overflow checks on, 8 MiB case stack
+    Release,
+    /// `VERIF_BIN_DBG`: the same sources compiled without optimisation (what `cargo test` and debug builds of a
+    /// caller run), 2 MiB case stack
+    Unoptimised,
+}
+
 // ---------------------------------------------------------------- child side
 
 static LAST_PANIC: Mutex<Option<Value>> = Mutex::new(None);
@@ -93,7 +109,7 @@ pub fn run_guarded(entry: u8, payload: &[u8], f: CaseFn) -> (String, Value) {
     *LAST_PANIC.lock().unwrap_or_else(|e| e.into_inner()) = None;
     let data = payload.to_vec();
     let t0 = Instant::now();
-    let handle = std::thread::Builder::new().stack_size(STACK).spawn(move || {
+    let handle = std::thread::Builder::new().stack_size(case_stack()).spawn(move || {
         alloc::arm(single, total);
         let r = std::panic::catch_unwind(move || f(entry, &data));
         alloc::disarm();
@@ -126,7 +142,8 @@ pub fn worker_main(f: CaseFn) {
     install_panic_hook();
     #[cfg(feature = "par")]
     {
-        let _ = rayon::ThreadPoolBuilder::new().stack_size(STACK).num_threads(4).build_global();
+        // rayon's default worker stack (2 MiB), as in an application that does not configure the pool
+        let _ = rayon::ThreadPoolBuilder::new().num_threads(4).build_global();
     }
     let stdin = std::io::stdin();
     let mut inp = stdin.lock();
@@ -219,9 +236,17 @@ pub struct WorkerClient {
 }
 
 impl WorkerClient {
-    pub fn spawn() -> Result<WorkerClient, String> {
-        let exe = std::env::current_exe().map_err(|e| e.to_string())?;
-        let mut child = Command::new(exe)
+    pub fn spawn(flavour: Flavour) -> Result<WorkerClient, String> {
+        let mut cmd = match flavour {
+            Flavour::Release => Command::new(std::env::current_exe().map_err(|e| e.to_string())?),
+            Flavour::Unoptimised => {
+                let bin = std::env::var("VERIF_BIN_DBG").ok().filter(|s| !s.is_empty()).ok_or("VERIF_BIN_DBG not set (run through ./check)")?;
+                let mut c = Command::new(bin);
+                c.env("VERIF_WORKER_STACK", (2usize << 20).to_string());
+                c
+            }
+        };
+        let mut child = cmd
             .arg("worker")
             .env("RUST_BACKTRACE", "0")
             .env("RUST_LOG", "off")
@@ -350,42 +375,56 @@ impl WorkerClient {
 
 thread_local! {
     static CLIENT: std::cell::RefCell<Option<WorkerClient>> = const { std::cell::RefCell::new(None) };
+    static CLIENT_DBG: std::cell::RefCell<Option<WorkerClient>> = const { std::cell::RefCell::new(None) };
 }
 
 pub static SLOW_CASES: std::sync::atomic::AtomicU64 = std::sync::atomic::AtomicU64::new(0);
 pub static RESPAWNS: std::sync::atomic::AtomicU64 = std::sync::atomic::AtomicU64::new(0);
 
-fn with_client<R>(f: impl FnOnce(&mut WorkerClient) -> R) -> Result<R, String> {
-    CLIENT.with(|c| {
+fn with_client<R>(flavour: Flavour, f: impl FnOnce(&mut WorkerClient) -> R) -> Result<R, String> {
+    let go = |c: &std::cell::RefCell<Option<WorkerClient>>| {
         let mut c = c.borrow_mut();
         if c.is_none() {
-            *c = Some(WorkerClient::spawn()?);
+            *c = Some(WorkerClient::spawn(flavour)?);
         }
         Ok(f(c.as_mut().unwrap()))
-    })
+    };
+    match flavour {
+        Flavour::Release => CLIENT.with(go),
+        Flavour::Unoptimised => CLIENT_DBG.with(go),
+    }
 }
 
-fn drop_client() {
-    CLIENT.with(|c| {
+fn drop_client(flavour: Flavour) {
+    let go = |c: &std::cell::RefCell<Option<WorkerClient>>| {
         if let Some(mut w) = c.borrow_mut().take() {
             w.kill();
         }
-    });
+    };
+    match flavour {
+        Flavour::Release => CLIENT.with(go),
+        Flavour::Unoptimised => CLIENT_DBG.with(go),
+    }
     RESPAWNS.fetch_add(1, std::sync::atomic::Ordering::Relaxed);
 }
 
 /// Run a case in this thread's worker. A watchdog trip or a death is confirmed by re-running the case
 /// alone in a fresh worker (60 s); an unconfirmed trip is counted as "slow", not as a failure.
 pub fn run_case(entry: u8, payload: &[u8]) -> Outcome {
-    let quick = Duration::from_secs(10);
-    let first = match with_client(|w| w.run_once(entry, payload, quick)) {
+    run_case_in(Flavour::Release, entry, payload)
+}
+
+pub fn run_case_in(flavour: Flavour, entry: u8, payload: &[u8]) -> Outcome {
+    // an unoptimised build is several times slower: scale the watchdog, keep the confirmation rule
+    let quick = Duration::from_secs(if flavour == Flavour::Unoptimised { 30 } else { 10 });
+    let first = match with_client(flavour, |w| w.run_once(entry, payload, quick)) {
         Ok(o) => o,
         Err(e) => return Outcome::Infra(e),
     };
     match first {
         Outcome::Hang { .. } | Outcome::Died { .. } => {
-            drop_client();
-            let second = match with_client(|w| w.run_once(entry, payload, Duration::from_secs(60))) {
+            drop_client(flavour);
+            let second = match with_client(flavour, |w| w.run_once(entry, payload, Duration::from_secs(if flavour == Flavour::Unoptimised { 180 } else { 60 }))) {
                 Ok(o) => o,
                 Err(e) => return Outcome::Infra(e),
             };
@@ -395,7 +434,7 @@ pub fn run_case(entry: u8, payload: &[u8]) -> Outcome {
                     second
                 }
                 (_, Outcome::Hang { .. }) | (_, Outcome::Died { .. }) => {
-                    drop_client();
+                    drop_client(flavour);
                     second
                 }
                 _ => second,
